@@ -111,6 +111,35 @@ class World(object):
         self.locations = dict((i, locs[i]) for i in range(n_hosts))
         self.tokens_owned = Counter(o for _t, o in self.ring)
         self._ks = 0
+        self.previous = None       # (ring, locations) before the last relocate()
+
+    def relocate(self, new_locs, new_ring=None, replace_hosts=False):
+        """The topology changes on the SAME Metadata object, the way the control connection applies it: hosts get a new
+        datacenter / rack (Host.set_location_info on the known objects, or - after a reconnect - fresh Host objects with the
+        same endpoints), optionally token ownership changes too, and rebuild_token_map is called with the new rows."""
+        from cassandra.pool import Host
+        from cassandra.policies import SimpleConvictionPolicy
+        self.previous = (self.ring, dict(self.locations))
+        self.locs = tuple(new_locs)
+        self.locations = dict((i, self.locs[i]) for i in range(len(self.locs)))
+        if replace_hosts:
+            fresh = [Host(h.endpoint, SimpleConvictionPolicy, self.locs[i][0], self.locs[i][1]) for i, h in enumerate(self.hosts)]
+            for old_h, new_h in zip(self.hosts, fresh):
+                new_h.is_up = old_h.is_up
+                self.metadata.remove_host(old_h)
+                self.metadata.add_or_return_host(new_h)
+            self.hosts = fresh
+        else:
+            for i, h in enumerate(self.hosts):
+                if (h.datacenter, h.rack) != self.locs[i]:
+                    h.set_location_info(self.locs[i][0], self.locs[i][1])
+        if new_ring is not None:
+            self.ring = sorted(new_ring, key=lambda p: p[0])
+            self.tokens_owned = Counter(o for _t, o in self.ring)
+        token_map = {}
+        for tok, owner in self.ring:
+            token_map.setdefault(self.hosts[owner], []).append(token_string(self.part, tok))
+        self.metadata.rebuild_token_map(PARTITIONER_NAMES[self.part], token_map)
 
     def add_keyspace(self, strategy, options, prefixed=False):
         from cassandra.metadata import KeyspaceMetadata
@@ -169,15 +198,18 @@ def is_known_replay_duplicate(world, strategy, drv, want_set):
     return True
 
 
-def judge_world(ctx, world, configs, probes_per_ks, rng, origin):
-    """All keyspaces of one ring; every pool key is a probe (at / around / between / beyond)."""
+def judge_world(ctx, world, configs, probes_per_ks, rng, origin, ks_names=None):
+    """All keyspaces of one ring; every pool key is a probe (at / around / between / beyond).
+    Returns the keyspace names; pass them back as ``ks_names`` to question the SAME keyspaces again."""
     pool = world.pool
     T = len(world.ring)
     ring_tokens = [t for t, _o in world.ring]
     ring_token_set = set(ring_tokens)
     struct = (world.part, tuple(o for _t, o in world.ring), world.locs)
-    for strategy, options, prefixed in configs:
-        ks = world.add_keyspace(strategy, options, prefixed)
+    names = []
+    for ci, (strategy, options, prefixed) in enumerate(configs):
+        ks = ks_names[ci] if ks_names is not None else world.add_keyspace(strategy, options, prefixed)
+        names.append(ks)
         rf_total = sum(int(v) for v in options.values())
         cache = {}
         probes = list(range(len(pool)))
@@ -208,6 +240,21 @@ def judge_world(ctx, world, configs, probes_per_ks, rng, origin):
             nontrivial = len(world.locs) >= 2 and rf_total >= 1 and T >= 2
             ctx.case((struct, strategy, sorted(options.items()), start, kind), nontrivial=nontrivial)
             ctx.count("replica_lookups_compared")
+            if ks_names is not None:
+                ctx.count("lookups_after_relocation_and_rebuild")
+                if world.previous is not None and T:
+                    from spec import placement as _pl
+                    old_ring, old_locations = world.previous
+                    if strategy == "SimpleStrategy":
+                        before = set(_pl.simple_strategy(old_ring, int(options["replication_factor"]), key_tok))
+                    else:
+                        before = set(_pl.network_topology(old_ring, old_locations, dict((k, int(v)) for k, v in options.items()), key_tok)[0])
+                    if before != want:
+                        ctx.count("lookups_whose_placement_shifted_with_the_layout")
+                else:
+                    before = None
+            else:
+                before = None
             if world.shared_address:
                 ctx.count("lookups_on_worlds_with_hosts_sharing_an_address")
             ctx.count("probe_" + kind)
@@ -234,7 +281,11 @@ def judge_world(ctx, world, configs, probes_per_ks, rng, origin):
                 continue
             # classify the set mismatch by mechanism
             mech = "nts-replica-set-mismatch" if strategy == "NetworkTopologyStrategy" else "simple-replica-set-mismatch"
-            if T >= 2:
+            if before is not None and set(drv) == before and before != want:
+                mech = "replicas-of-the-previous-layout-after-rebuild_token_map"
+                witness["previous_hosts"] = dict(("h%d" % i, "%s/%s" % l) for i, l in sorted(world.previous[1].items()))
+                witness["previous_ring"] = [(token_string(world.part, t), "h%d" % o) for t, o in world.previous[0]]
+            elif T >= 2:
                 nxt = world.spec_replicas(strategy, options, ring_tokens[(start + 1) % T])[1] if kind == "at" else None
                 prev_tok = ring_tokens[(start - 1) % T]
                 prv = world.spec_replicas(strategy, options, prev_tok)[1]
@@ -244,6 +295,39 @@ def judge_world(ctx, world, configs, probes_per_ks, rng, origin):
                     mech = "token-range-lookup-picks-wrong-range"
             ctx.violation(mech, "get_replicas(%s %s, key %s token) = %s, Cassandra places %s" % (
                 strategy, options, kind, witness["driver"], witness["cassandra"]), witness)
+    return names
+
+
+def relocation_round(ctx, world, configs, ks_names, probes_per_ks, rng, origin):
+    """Second act on the same Metadata: 1-2 hosts move (rack within the DC, or to another DC), rebuild_token_map is
+    called with the same token ownership (or, as a control, with one token handed to another host), and the same
+    keyspaces are questioned again - the answers must be the placement on the NEW layout."""
+    n = len(world.locs)
+    new_locs = list(world.locs)
+    dcs = sorted(set(l[0] for l in world.locs) | set(["dc1", "dc2"]))
+    for h in rng.sample(range(n), min(n, rng.choice([1, 1, 2]))):
+        dc, rack = new_locs[h]
+        if rng.random() < 0.6:
+            rack = rng.choice([r for r in ("r1", "r2", "r3") if r != rack])
+        else:
+            dc = rng.choice([d for d in dcs if d != dc])
+            rack = rng.choice(["r1", "r2"])
+        new_locs[h] = (dc, rack)
+    new_ring = None
+    if rng.random() < 0.3 and n >= 2 and len(world.ring) >= 2:
+        # control: token ownership changes at the same time (one token goes to another host that keeps >= 1 token)
+        ring = list(world.ring)
+        i = rng.randrange(len(ring))
+        tok, owner = ring[i]
+        if world.tokens_owned[owner] >= 2:
+            ring[i] = (tok, rng.choice([h for h in range(n) if h != owner]))
+            new_ring = ring
+            ctx.count("relocations_with_token_ownership_change")
+    replace = rng.random() < 0.4
+    world.relocate(new_locs, new_ring, replace_hosts=replace)
+    ctx.count("relocations")
+    ctx.count("relocations_with_fresh_host_objects" if replace else "relocations_through_set_location_info")
+    judge_world(ctx, world, configs, probes_per_ks, rng, origin, ks_names=ks_names)
 
 
 def all_configs(dcs, rf_max, rng=None, extra_dc=False, banded=False):
@@ -319,8 +403,11 @@ def exhaustive_part(ctx, n_hosts_max, worker, nworkers, sample_fraction=1.0):
                 positions = spread_positions(T, len(key_pool(part)), idx)
                 world = World(part, owners, locs, positions)
                 configs = all_configs(set(l[0] for l in locs), 4, extra_dc=True, banded=(n >= 4))
-                judge_world(ctx, world, configs, probes_per_ks=min(len(world.pool), T + (4 if n <= 3 else 2)), rng=rng, origin="exhaustive")
+                ppk = min(len(world.pool), T + (4 if n <= 3 else 2))
+                names = judge_world(ctx, world, configs, probes_per_ks=ppk, rng=rng, origin="exhaustive")
                 ctx.count("exhaustive_rings")
+                if n >= 2 and (idx // nworkers) % 6 == 0:
+                    relocation_round(ctx, world, configs, names, ppk, rng, "exhaustive-relocated")
     return idx
 
 
@@ -392,6 +479,9 @@ def run(ctx):
                 "between / beyond ring tokens under Murmur3, Random and ByteOrdered partitioners. distinct = (partitioner, owner "
                 "sequence, locations, strategy+options, token range hit, probe kind); trivial = single host, RF 0, single token")
     ctx.assume("ring tokens are pairwise distinct and every host has a datacenter and a rack (Cassandra guarantees both)")
+    ctx.assume("the layout the driver answers for must be the current one: on a share of rings 1-2 hosts change rack or datacenter "
+               "(set_location_info or fresh Host objects with the same endpoints), rebuild_token_map is called on the same Metadata "
+               "with the same (or, as a control, changed) token ownership and the same keyspaces are questioned again")
     ctx.assume("transient replication ('3/1') is not generated: whether transient replicas belong in the driver's list is a "
                "design choice, not placement")
     ctx.assume("NTS oracle = Cassandra 3.x/4.x calculateNaturalReplicas (rack-diverse with rf - rackCount repeats allowed), "
@@ -415,8 +505,12 @@ def run(ctx):
     for _ in range(n_random):
         world = random_world(rng)
         configs = random_configs(rng, world, 6)
-        judge_world(ctx, world, configs, probes_per_ks=14, rng=rng, origin="random")
+        names = judge_world(ctx, world, configs, probes_per_ks=14, rng=rng, origin="random")
         ctx.count("random_rings")
+        if len(world.locs) >= 2 and rng.random() < 0.4:
+            relocation_round(ctx, world, configs, names, 14, rng, "random-relocated")
+            if rng.random() < 0.3:
+                relocation_round(ctx, world, configs, names, 14, rng, "random-relocated-twice")
 
     # an empty ring and an unknown partitioner answer with no replicas
     from cassandra.metadata import Metadata, KeyspaceMetadata
@@ -432,4 +526,7 @@ def run(ctx):
     ctx.floor_distinct = 8000 if ctx.quick else 400000
     ctx.floor_counters = {"replica_lookups_compared": 100000, "nts_lookups": 60000, "simple_strategy_lookups": 10000,
                           "probe_at": 20000, "probe_between": 5000, "probe_beyond-last": 1000, "probe_before-first": 1000,
-                          "lookups_on_multi_token_rings": 30000, "exhaustive_rings": 2000, "random_rings": 400}
+                          "lookups_on_multi_token_rings": 30000, "exhaustive_rings": 2000, "random_rings": 400,
+                          "relocations": 400, "lookups_after_relocation_and_rebuild": 20000,
+                          "lookups_whose_placement_shifted_with_the_layout": 3000,
+                          "relocations_through_set_location_info": 100, "relocations_with_fresh_host_objects": 100}
